@@ -130,7 +130,8 @@ def getObjSpec (j : Json) : Except String ObjSpec := do
 def jTCall (t : TCall) : Json :=
   Json.mkObj [("msgid", jStr t.msgid),
     ("mapping", match t.mapping with | some m => Json.mkObj (m.map (fun (k, v) => (k.toString, jStr v))) | none => Json.null),
-    ("default", jOptStr t.dflt), ("domain", jOptStr t.domain), ("context", jOptStr t.context), ("target", jOptStr t.target)]
+    ("default", jOptStr t.dflt), ("domain", jOptStr t.domain), ("context", jOptStr t.context), ("target", jOptStr t.target),
+    ("offered", Json.bool t.offered)]
 
 def jOutcome : Outcome → Json
   | .out s log tlog handled => Json.mkObj [("out", jStr s), ("log", jArr (log.toList.map jStr)),
